@@ -392,3 +392,18 @@ pub fn filter_state(client: &Client, chain: &SimChain, names: &[PeerIndex]) -> V
         "meta": meta_keys,
     })
 }
+
+/// C10: what the hostile-message trace specification looks at -- the stored tip and the peers' state names.
+pub fn hostile_state(client: &Client, chain: &SimChain, names: &[PeerIndex], now: u64) -> Value {
+    let mut peers = serde_json::Map::new();
+    for p in names {
+        let v = match client.peers.get_state(p) {
+            Some(st) => peer_json(chain, &st),
+            None => none_peer(),
+        };
+        let fork = v["req"]["fork"].clone();
+        peers.insert(pname(*p), json!({"st": v["st"], "fork": fork}));
+    }
+    let (td, tip) = client.storage.get_last_state();
+    json!({"now": now, "peer": Value::Object(peers), "tip": hid(chain, &tip.calc_header_hash()), "tipTD": small(&td)})
+}
